@@ -309,7 +309,11 @@ def declare(w):
         E = P(h, a.self, "_primary_thread_task_ready")
         T0 = P(h, a.self, "_primary_thread_task")
         waited = z3.And(r, E != 0, ev_set(h, E))   # main_thread_only: the previous mailbox task was waited for
+        mto = h("ExecModel", P(h, a.self, "execmodel"), "backend") == MTO
         return [z3.Implies(r, z3.And(E != 0, P(h2, a.self, "_primary_thread_task") == a.reply, ev_set(h2, E), owner(h2, a.reply) == O_MAILBOX)),
+                # the primary thread takes the task whenever it can: it is idle (flag down), or - main_thread_only - it has a task, which is then waited for.
+                # In main_thread_only a task must never fall through to a new thread while the pool is in service (C14: bodies run in the main thread)
+                z3.Implies(z3.And(E != 0, z3.Or(z3.Not(ev_set(h, E)), z3.And(mto, T0 != 0))), r),
                 z3.Implies(z3.Not(r), z3.And(P(h2, a.self, "_primary_thread_task") == T0, owner(h2, a.reply) == owner(h, a.reply),
                                              z3.Implies(E != 0, ev_set(h2, E) == ev_set(h, E)))),
                 # the task that was in the mailbox before: untouched, or finished if it was waited for
